@@ -9,6 +9,7 @@
 #include <stdarg.h>
 #include <stddef.h>
 #include <dlfcn.h>
+#include <unistd.h>
 
 extern void __sanitizer_symbolize_pc(void *pc, const char *fmt, char *out, size_t out_size) __attribute__((weak));
 
@@ -104,10 +105,22 @@ static void scen_load(const scen_t *s, res_t *r)
 	jwk_set_t *set = NULL;
 	char doc[12000];
 	switch (s->variant) {
-	case 0: case 3: snprintf(doc, sizeof(doc), "%s", JWK_PRIV[s->key]); break;
+	case 0: case 3: case 4: case 5: snprintf(doc, sizeof(doc), "%s", JWK_PRIV[s->key]); break;
 	case 1: snprintf(doc, sizeof(doc), "%s", JWK_PUB[s->key] ? JWK_PUB[s->key] : JWK_PRIV[s->key]); break;
 	default: snprintf(doc, sizeof(doc), "{\"keys\":[%s,{\"kty\":\"oct\",\"kid\":\"broken\"},%s]}", JWK_PRIV[0], JWK_PRIV[s->key]); break;
 	}
+	if (s->variant >= 4 && s->variant <= 5) {
+		static char path[64];
+		FILE *f;
+		int was = inject_on;
+		inject_on = 0;	/* writing the temp file is the harness' business */
+		snprintf(path, sizeof(path), "/tmp/vh_c17_%d.json", (int)getpid());
+		f = fopen(path, "w"); fputs(doc, f); fclose(f);
+		inject_on = was;
+		if (s->variant == 4) set = jwks_create_fromfile(path);
+		else { f = fopen(path, "r"); set = jwks_create_fromfp(f); fclose(f); }
+		unlink(path);
+	} else
 	set = s->variant == 3 ? jwks_create_strn(doc, strlen(doc)) : jwks_create(doc);
 	describe_set(r, set);
 	if (set && !r->reported && s->variant != 2) {
@@ -128,6 +141,26 @@ static int cfg_cb(jwt_t *jwt, jwt_config_t *cfg)
 	if (jwt_header_set(jwt, &v) != JWT_VALUE_ERR_NONE) return 1;
 	return 0;
 }
+/* callback exercising the jwt_t API; any failing call is reported by returning non-zero */
+static res_t *cb_res;
+static int jwtt_cb(jwt_t *jwt, jwt_config_t *cfg)
+{
+	jwt_value_t v;
+	(void)cfg;
+	jwt_set_SET_JSON(&v, "obj", "{\"k\":[1,2,3]}"); if (jwt_claim_set(jwt, &v)) return 1;
+	jwt_set_SET_BOOL(&v, "flag", 1); if (jwt_claim_set(jwt, &v)) return 1;
+	jwt_set_SET_STR(&v, "kid", "cb-kid"); v.replace = 1; if (jwt_header_set(jwt, &v)) return 1;
+	jwt_set_SET_JSON(&v, NULL, "{\"m1\":1,\"m2\":\"two\"}"); v.replace = 1; if (jwt_header_set(jwt, &v)) return 1;
+	jwt_set_GET_JSON(&v, NULL); if (jwt_claim_get(jwt, &v)) return 1;
+	if (cb_res) res_addf(cb_res, "cbclaims=%s;", v.json_val);
+	free(v.json_val);
+	jwt_set_GET_JSON(&v, "obj"); if (jwt_claim_get(jwt, &v)) return 1;
+	free(v.json_val);
+	jwt_set_GET_STR(&v, "kid"); if (jwt_header_get(jwt, &v)) return 1;
+	if (jwt_claim_del(jwt, "flag")) return 1;
+	return 0;
+}
+
 static int read_cb(jwt_t *jwt, jwt_config_t *cfg)
 {
 	jwt_value_t v;
@@ -191,14 +224,16 @@ static char *gen_token(const scen_t *s, res_t *r)
 	if (!b) { r->reported = 1; return NULL; }
 	if (s->key >= 0) CFG(jwt_builder_setkey(b, (jwt_alg_t)(s->key == 1 && s->variant == 2 ? JWT_ALG_PS256 : KALG[s->key]), FPRIV[s->prov][s->key]));
 	jwt_set_SET_STR(&v, "iss", "me"); CFG(jwt_builder_claim_set(b, &v));
-	if (s->variant >= 1) {
+	if (s->variant >= 1 && s->variant != 4) {
 		CFG(jwt_builder_time_offset(b, JWT_CLAIM_EXP, 300));
 		CFG(jwt_builder_time_offset(b, JWT_CLAIM_NBF, 1));
 		jwt_set_SET_STR(&v, "kid", "key-1"); CFG(jwt_builder_header_set(b, &v));
 		jwt_set_SET_JSON(&v, "roles", "[\"a\",\"b\"]"); CFG(jwt_builder_claim_set(b, &v));
 	}
 	if (s->variant == 3) CFG(jwt_builder_setcb(b, cfg_cb, NULL));
+	if (s->variant == 4) { cb_res = r; CFG(jwt_builder_setcb(b, jwtt_cb, NULL)); }
 	tok = jwt_builder_generate(b);
+	cb_res = NULL;
 	if (!tok) r->reported = 1;
 out:
 	jwt_builder_free(b);
@@ -296,6 +331,11 @@ int main(int argc, char **argv)
 			snprintf(nm, sizeof(nm), "load:set-with-%s", KSPEC[k]); add_scen(nm, T_LOAD, k & 1, k, 2);
 		}
 		add_scen("load:strn:ec", T_LOAD, 0, 2, 3);
+		add_scen("load:fromfile:ec", T_LOAD, 0, 2, 4);
+		add_scen("load:fromfp:okp", T_LOAD, 1, 3, 5);
+		add_scen("load:fromfile:rsa", T_LOAD, 0, 1, 4);
+		add_scen("generate:HS256:jwt_t-api-in-callback:p0", T_GEN, 0, 0, 4);
+		add_scen("generate:ES256:jwt_t-api-in-callback:p1", T_GEN, 1, 2, 4);
 		add_scen("config:builder", T_CONFIG, 0, 0, 0);
 		add_scen("config:checker", T_CONFIG, 0, 0, 1);
 		for (int p = 0; p < 2; p++) {
@@ -348,7 +388,14 @@ int main(int argc, char **argv)
 			} else if (got.reported) outcome = "reported";
 			else if (s->kind == T_GEN) {
 				if (!strcmp(got.text, base.text)) outcome = "same";
-				else if (randomized && same_hp(got.text, base.text) && vh_ref_token_valid(&K[s->key], got.text, NULL)) outcome = "same";
+				else if (randomized) {
+					/* the token follows anything the callback logged ("...;") */
+					const char *gt = strrchr(got.text, ';'), *bt = strrchr(base.text, ';');
+					gt = gt ? gt + 1 : got.text; bt = bt ? bt + 1 : base.text;
+					if ((gt - got.text) == (bt - base.text) && !strncmp(got.text, base.text, (size_t)(gt - got.text)) &&
+					    same_hp(gt, bt) && vh_ref_token_valid(&K[s->key], gt, NULL)) outcome = "same";
+					else outcome = "TOKEN-DIFFERS";
+				}
 				else outcome = "TOKEN-DIFFERS";
 			} else if (strcmp(got.text, base.text)) outcome = s->kind == T_LOAD ? "LOAD-RESULT-DIFFERS" : "CONFIG-RESULT-DIFFERS";
 			printf("[\"F\",%d,%ld,\"%s\",\"%s\"", si, k, outcome, fail_chain);
